@@ -115,6 +115,7 @@ def run(tier):
     allf = zoo.standard_files()
     files = {k: allf[k] for k in ('F1f', 'F2', 'F2z')}
     files.update(zoo.halfrate_refusal_files())
+    files.update(zoo.halfrate_extra_files())
     exe, listfile, models = seekgraph.load_models(files)
     # reference facts: ceil(N/2) per link, positions advance by two per sample
     rs = json.loads(subprocess.run([exe, '--files', listfile, '--refstats'], stdout=subprocess.PIPE, env=vlib.run_env(), text=True).stdout)
@@ -187,6 +188,7 @@ def replay(path):
     allf = zoo.standard_files()
     files = {k: allf[k] for k in ('F1f', 'F2', 'F2z')}
     files.update(zoo.halfrate_refusal_files())
+    files.update(zoo.halfrate_extra_files())
     exe, listfile, models = seekgraph.load_models(files)
     fm = [m for m in models if m.name == r['replay']['file']][0]
     out = vlib.run_cases(exe, [f"{fm.idx} s - plin " + ' '.join(r['replay']['ops'])], ['--files', listfile], jobs=1)
